@@ -139,11 +139,12 @@ def parse_pxd(path):
             continue
         # function / method declaration
         m = re.match(
-            r"^(cdef|cpdef)\s+(inline\s+)?(?:(" + _TYPE_RE + r")\s+)?(\w+)\s*\((.*)\)\s*(?:except\s*(\??\s*[-\w\*]+))?$",
+            r"^(cdef|cpdef)\s+(inline\s+)?(?:(" + _TYPE_RE + r")\s+)?(\w+)\s*\((.*)\)\s*(?:except\s*(\??\s*[-\w\*]+)|(noexcept))?$",
             s,
         )
         if m:
-            kind, inline, ret, name, args, exc = m.groups()
+            kind, inline, ret, name, args, exc, noexc = m.groups()
+            exc = "noexcept" if noexc else exc
             params = [_parse_param(p) for p in _split_args(args)]
             fn = PxdFunc(name, kind, ret, params, exc, pending_locals, lineno, bool(inline))
             pending_locals = {}
